@@ -52,7 +52,9 @@ fn run_case(case: &Sexp) -> String {
     "ileave2" => ileave2::run_ileave2(body),
     "tofuture" => convert::run_tofuture(body),
     "tostream" => convert::run_tostream(body),
+    "tostream_wake" => convert::run_tostream_wake(body),
     "status" => convert::run_status(body),
+    "status2" => convert::run_status2(body),
     "share" => share::run_share(body),
     "indep" => indep::run_indep(body),
     "tree" => tree::run_tree(body),
